@@ -29,7 +29,7 @@ QUERIES = {
     "week_of_cal": lambda a, b: list(D.get_week_date_from_calendar_date(a, 3, 1)),
 }
 FNS = sorted(QUERIES)
-QYEARS = [2000, 2004, 2019, 2020, 2021, 1900, 2015, 4, 1, 1999, 2032, 2100]
+QYEARS = [2000, 2004, 2019, 2020, 2021, 1900, 2015, 4, 1, 1999, 2032, 2100, 0, -1, -4, 400]
 
 
 def run_case(case, rec, cid):
@@ -77,7 +77,7 @@ def rand_query(rnd):
 def rand_do(rnd, sp):
     """A mode-sensitive operation of another property's driver, on a small set of years so that cache keys recur."""
     m = MEANING[sp]
-    yrs = [2000, 2004, 2019, 2020, 2021, 1900]
+    yrs = [2000, 2004, 2019, 2020, 2021, 1900, 0, 4]
     x = rnd.random()
     if rnd.random() < 0.12:
         # year/month durations: their rough length (ordering, get_seconds, get_days_and_seconds) counts a year as the
